@@ -51,10 +51,19 @@ PRESERVING = {
     'RI4': ('C12', 'C15', 'C16', 'C20'),
     'RI5': ('C08', 'C18'),
     'RI6': ('C04', 'C06', 'C09', 'C12', 'C16', 'C17', 'C18'),
+    # fifth set (moving code between functions: private members, RAII wrapper of the lock, value-returning helpers, std::tie,
+    # front/back, distance/prev, carried loop variables, guards moved into bool helpers)
+    'RJ1': ('C13', 'C14', 'C15', 'C19', 'C20'),
+    'RJ2': ('C01', 'C02', 'C10', 'C11', 'C12', 'C14', 'C19'),
+    'RJ3': ('C01', 'C02', 'C06', 'C10', 'C11', 'C12', 'C14'),
+    'RJ4': ('C12', 'C15', 'C16', 'C20'),
+    'RJ5': ('C08', 'C18'),
+    'RJ6': ('C04', 'C06', 'C09', 'C12', 'C16', 'C17', 'C18'),
 }
 # refactorings on which a rule is allowed to end without a verdict (exit 2, "not recognised"): the form is outside what the
 # engine follows; it must still never report a violation there
-NO_VERDICT_OK = {('RG4c', 'C15'), ('RI4c', 'C15'), ('RI2b', 'C12'), ('RI3a', 'C02'), ('RI3a', 'C06'), ('RI3a', 'C10'), ('RI3a', 'C14')}
+NO_VERDICT_OK = {('RG4c', 'C15'), ('RI4c', 'C15'), ('RI2b', 'C12'), ('RI3a', 'C02'), ('RI3a', 'C06'), ('RI3a', 'C10'), ('RI3a', 'C14'),
+                 ('RJ1a', 'C13'), ('RJ1a', 'C14'), ('RJ2a', 'C12'), ('RJ2b', 'C12'), ('RJ4c', 'C15'), ('RJ5a', 'C08')}
 
 
 def run_property(prop, tier, only=None):
